@@ -9,6 +9,7 @@
 mod alphabet;
 mod engine;
 mod props;
+mod refcbor;
 mod report;
 mod util;
 
